@@ -1,10 +1,68 @@
 import Driver.Util
-open Lean Driver
+import Driver.C12
+import GinjaxVerif.Model.C12
+import GinjaxVerif.Model.C18
+open Lean Driver GinjaxVerif.C12 GinjaxVerif.C18
 
 namespace Driver.C18
 
-def handle (op : String) (_j : Json) : R Json := do
+def operands (j : Json) : R (MI Rat × MI Rat) := do
+  let x ← field j "x" >>= (Driver.C12.asOperand · "x")
+  let y ← field j "y" >>= (Driver.C12.asOperand · "y")
+  pure (x, y)
+
+def reject {α} (what : String) : R α := throw s!"rejected: {what}"
+
+def handle (op : String) (j : Json) : R Json := do
   match op with
+  | "c18.smse" =>
+    let (x, y) ← operands j
+    let red ← strF j "reduce"
+    let legacy := ((optField j "legacy").bind (fun v => (asBool v).toOption)).getD false
+    let pb := if legacy then smsePerBatchLegacy x y else smsePerBatch x y
+    match pb with
+    | none => reject "smse_loss: leading axes / missing type"
+    | some l =>
+      match red with
+      | "mean" => pure (Json.mkObj [("shape", jList jNat []), ("data", jList jRat [mean l])])
+      | "none" => pure (Json.mkObj [("shape", jList jNat [l.length]), ("data", jList jRat l)])
+      | _ => reject s!"smse_loss: reduce={red}"
+  | "c18.timestep" =>
+    let (x, y) ← operands j
+    let steps ← natF j "steps"
+    let red ← strF j "reduce"
+    let legacy := ((optField j "legacy").bind (fun v => (asBool v).toOption)).getD false
+    let mm := if legacy then timestepMatrixLegacy x y steps else timestepMatrix x y steps
+    match mm with
+    | none => reject "timestep_smse_loss: leading axes / missing type / n_steps does not divide the channels"
+    | some m =>
+      match red with
+      | "mean" => pure (Json.mkObj [("shape", jList jNat [steps]), ("data", jList jRat (meanAxis0 m steps))])
+      | "max" =>
+        pure (Json.mkObj [("shape", jList jNat [steps]),
+                          ("data", jList jRat (m.getD (argmaxFirst (m.map List.sum)) []))])
+      | "none" => pure (Json.mkObj [("shape", jList jNat [m.length, steps]), ("data", jList jRat m.flatten)])
+      | _ => reject s!"timestep_smse_loss: reduce={red}"
+  | "c18.normalized" =>
+    let (x, y) ← operands j
+    let eps ← field j "eps" >>= asRat
+    match normalizedSmse x y eps with
+    | none => reject "normalized_smse_loss: missing type"
+    | some v => pure (Json.mkObj [("shape", jList jNat []), ("data", jList jRat [v])])
+  | "c18.spec" =>
+    -- the property's sentence in (batch, channel, pixel, component) coordinates, per batch entry
+    let (x, y) ← operands j
+    let kind ← strF j "kind"
+    let L := getL x
+    match kind with
+    | "smse" => pure (jList jRat ((List.range L).map (smseSpec x y)))
+    | "timestep" =>
+      let steps ← natF j "steps"
+      pure (jList (jList jRat) ((List.range L).map (fun i => (List.range steps).map (tsSpec x y steps i))))
+    | "normalized" =>
+      let eps ← field j "eps" >>= asRat
+      pure (jList jRat ((List.range L).map (normSpec x y eps)))
+    | _ => throw s!"bad kind {kind}"
   | _ => throw s!"unknown op {op}"
 
 end Driver.C18
